@@ -836,8 +836,80 @@ def report(R, label, ops, fails):
                {"fn": "replay_history", "args": [label, ops, fid]})
 
 
+# ------------------------------------------------------------------------------------------------ GroupBy keys
+def _od(*items):
+    """a dictionary with exactly this insertion order"""
+    d = {}
+    for k, v in items:
+        d[k] = v
+    return d
+
+
+GB_VALUES = [
+    (1, _od(("variable", _od(("name", "x"), ("unit", "cm"))), ("detector", "far"))),
+    (2, _od(("detector", "far"), ("variable", _od(("unit", "cm"), ("name", "x"))))),          # == value 1, other orders
+    (3, _od(("variable", _od(("name", "y"), ("unit", "cm"))), ("detector", "far"))),
+    (4, _od(("variable", _od(("unit", "cm"), ("name", "x"))), ("detector", "far"))),          # == value 1, nested order
+    (5, _od(("variable", _od(("name", "x"), ("unit", "cm"), ("range", _od(("lo", 0), ("hi", 1))))), ("detector", "far"))),
+    (6, _od(("detector", "far"), ("variable", _od(("range", _od(("hi", 1), ("lo", 0))), ("unit", "cm"), ("name", "x"))))),  # == 5
+]
+GB_CONFIGS = [
+    ("GroupBy('', merge=())", lambda: GroupBy("", merge=()), lambda c: c),
+    ("GroupBy('variable')", lambda: GroupBy("variable"), lambda c: c.get("variable")),
+    ("GroupBy(('variable', 'detector'))", lambda: GroupBy(("variable", "detector")), lambda c: (c.get("variable"), c.get("detector"))),
+    ("GroupBy('variable.range')", lambda: GroupBy("variable.range"), lambda c: c.get("variable", {}).get("range")),
+]
+
+
+def groupby_order_case(ci, order, with_reset):
+    """"GroupBy the filled values themselves", grouped by the selected context: contexts that are EQUAL dictionaries are
+    the same key, however their items were inserted (at any depth).  Returns None or a description."""
+    label, make, proj = GB_CONFIGS[ci]
+    el = make()
+    vals = [copy.deepcopy(GB_VALUES[i]) for i in order]
+    if with_reset:
+        el.fill(copy.deepcopy(GB_VALUES[2]))
+        el.reset()
+    for v in vals:
+        el.fill(v)
+    got = [[v[0] for v in g] for g in el.compute()]
+    exp, keys = [], []
+    for v in vals:
+        k = proj(v[1])
+        for j, k2 in enumerate(keys):
+            if k2 == k:
+                exp[j].append(v[0])
+                break
+        else:
+            keys.append(k)
+            exp.append([v[0]])
+    if got != exp:
+        return "%s filled with values %r (contexts equal up to insertion order)%s: groups %r, expected %r" % (
+            label, [v[0] for v in vals], " after a reset" if with_reset else "", got, exp)
+    return None
+
+
+def replay_groupby_order(ci, order, with_reset):
+    return groupby_order_case(ci, order, with_reset) is not None
+
+
 def body(R):
     rng = R.rng
+    R.scope("GroupBy: equal contexts are one key whatever the insertion order of their items",
+            "%d GroupBy configurations x all orders of 3 out of %d tagged values whose contexts are pairwise equal or "
+            "different as dictionaries but inserted in different orders (top level and nested), with and without a "
+            "preceding fill + reset" % (len(GB_CONFIGS), len(GB_VALUES)), True)
+    for ci in range(len(GB_CONFIGS)):
+        for order in itertools.permutations(range(len(GB_VALUES)), 3):
+            for wr in (False, True):
+                R.case(True, {"config": GB_CONFIGS[ci][0], "values": list(order), "reset": wr} if order == (0, 1, 2) else None)
+                try:
+                    bad = groupby_order_case(ci, list(order), wr)
+                except Exception as e:
+                    bad = "%s raised %s: %s" % (GB_CONFIGS[ci][0], type(e).__name__, e)
+                if bad:
+                    R.fail("GroupBy/key-depends-on-insertion-order", bad, {"config": GB_CONFIGS[ci][0], "values": list(order), "reset": wr},
+                           {"fn": "replay_groupby_order", "args": [ci, list(order), wr]})
     # 1. all histories over the alphabet, up to a length
     lmax = 7 if R.thorough else 5
     R.scope("fill/compute/reset histories of %d element configurations (Sum, DSum, Mean, VarianceMeanCount, Vectorize, "
@@ -936,7 +1008,7 @@ def body(R):
 
 
 if __name__ == "__main__":
-    R = Run("C09", {"replay_history": replay_history, "replay_ctor": replay_ctor})
+    R = Run("C09", {"replay_history": replay_history, "replay_ctor": replay_ctor, "replay_groupby_order": replay_groupby_order})
     sys.exit(R.main(body, "every history over the operation alphabet up to the stated length and every short number "
                           "sequence is enumerated (distinct by construction); random histories add length and value "
                           "breadth; a case is non-trivial when at least one value was filled and a compute of the real "
